@@ -165,6 +165,11 @@ func (w *World) Init(s *kernel.Sim) {
 		p.MaxOps = t.Range(4, 70)
 		p.Conc = t.Range(1, 6)
 	}
+	if t.Chance(1, 20) {
+		// a marathon: far more requests than any table, ring or cache of the front end is likely to hold entries for
+		// (what is right the first few dozen times and wrong after a wrap-around)
+		p.MaxOps = t.Range(60, 120)
+	}
 	p.MaxGet = []int64{1000, 1, 2, 3, 7, 10, 1 << 31, math.MaxInt64}[t.Intn(8)]
 	p.Align = !t.Chance(1, 3)
 	p.SeqWeight = t.Range(1, 6)
@@ -256,7 +261,19 @@ func (w *World) build() {
 		// every external-storage spec: the log was switched over from the default mode, or a default-mode front end writes
 		// to the same tree - entries stored with their full chain live next to entries that refer to it by hash
 		cfg := &configpb.LogConfig{LogId: 7001, Prefix: "sim", RootsPemFile: []string{rootsFile}, PrivateKey: priv, PublicKey: pub}
-		inst, err := NewInstance(InstanceParams{Cfg: cfg, Backend: w.be, Deadline: p.Deadline})
+		// the same instance options as the run's other front ends (masking, error mapper, quota users): only the chain
+		// storage mode differs. (Built without them at first, the legacy instance answered a masked run's faults unmasked:
+		// a false alarm of C08ext that `vp check` found.)
+		lip := InstanceParams{Cfg: cfg, Backend: w.be, Deadline: p.Deadline, Mask: p.Mask, QuotaUsers: p.Quota}
+		if p.Mapper {
+			lip.Mapper = func(err error) (int, bool) {
+				if st, ok := status.FromError(err); ok && st.Code() == codes.Unknown {
+					return 502, true
+				}
+				return 0, false
+			}
+		}
+		inst, err := NewInstance(lip)
 		if err != nil {
 			panic("harness: cannot build legacy instance: " + err.Error())
 		}
